@@ -142,6 +142,7 @@ const (
 	pIfPath    = "v-if it.x (v-for body)"
 	pElseIfNeg = "v-else-if !x"
 	pShowChain = "v-show on v-if member"
+	pClassNot  = ":class !x"
 )
 
 var positions = append([]position{
@@ -157,10 +158,11 @@ var positions = append([]position{
 	{name: pIfPath, tpl: `<div v-for="it in rows"><p data-m="y" v-if="it.x">Y</p></div>`, obs: present("y")},
 	{name: pElseIfNeg, tpl: `<p data-m="n" v-if="ff">N</p><p data-m="y" v-else-if="!x">Y</p><p data-m="e" v-else>E</p>`, obs: not(elseIf)},
 	{name: pShowChain, tpl: `<p data-m="y" v-if="tt" v-show="x">Y</p>`, obs: shown("y")},
+	{name: pClassNot, tpl: `<p data-m="y" class="s" :class="{k: !x, 'a': tt}">Y</p>`, obs: not(hasClass("y", "k", []string{"s", "a"}, nil))},
 }, formPositions()...)
 
 // basePositionCount is the number of positions written on the plain name x.
-const basePositionCount = 12
+const basePositionCount = 13
 
 // holder is a struct below the root: Val is read by its JSON tag (h.val) and by its Go name
 // (h.Val), Plain has no tag.
@@ -181,6 +183,50 @@ type form struct {
 	skip   func(v vals.V) bool
 	neg    string // negated spelling (default "!" + path)
 	noAttr bool   // the form is not written into a bound attribute
+}
+
+// Embedded is embedded by value in OuterV and by pointer in OuterP: its fields are promoted and
+// addressed like fields of the outer struct (e.Val), exactly as Go code does.
+type Embedded struct {
+	Val   any `json:"val"`
+	Plain any
+}
+
+type OuterV struct {
+	Embedded
+	Name string
+}
+
+type OuterP struct {
+	*Embedded
+	Name string
+}
+
+func promotedForms() []form {
+	mk := func(name, path string, wrap [2]string, data func(v any) map[string]any) form {
+		return form{name: "promoted field " + name, path: path, wrap: wrap, data: func(v any, _ bool) map[string]any { return data(v) }}
+	}
+	none := [2]string{}
+	return []form{
+		mk("e.Val (struct embedded by value)", "e.Val", none, func(v any) map[string]any {
+			return map[string]any{"e": OuterV{Embedded: Embedded{Val: v}}}
+		}),
+		mk("e.Plain (untagged, embedded by value)", "e.Plain", none, func(v any) map[string]any {
+			return map[string]any{"e": OuterV{Embedded: Embedded{Plain: v}}}
+		}),
+		mk("ep.Val (struct embedded by pointer)", "ep.Val", none, func(v any) map[string]any {
+			return map[string]any{"ep": OuterP{Embedded: &Embedded{Val: v}}}
+		}),
+		mk("pe.Val (pointer to the outer struct)", "pe.Val", none, func(v any) map[string]any {
+			return map[string]any{"pe": &OuterV{Embedded: Embedded{Val: v}}}
+		}),
+		mk("es[0].Val (outer struct in a slice)", "es[0].Val", none, func(v any) map[string]any {
+			return map[string]any{"es": []OuterP{{Embedded: &Embedded{Val: v}}}}
+		}),
+		mk("p.Val (outer struct as v-for item)", "p.Val", [2]string{`<div v-for="p in es">`, `</div>`}, func(v any) map[string]any {
+			return map[string]any{"es": []OuterV{{Embedded: Embedded{Val: v}}}}
+		}),
+	}
 }
 
 // funcNames are names of template functions registered by default (docs/funcmap.md): a variable
@@ -320,14 +366,27 @@ func formPositions() []position {
 			position{name: f.name + " / v-show", tpl: w(`<p data-m="y" v-show="` + p + `">Y</p>`), obs: shown("y"), data: data, skip: f.skip},
 			position{name: f.name + " / :class", tpl: w(`<p data-m="y" :class="{k: ` + p + `}">Y</p>`), obs: hasClass("y", "k", nil, nil), data: data, skip: f.skip},
 			position{name: f.name + " / v-if !", tpl: w(`<p data-m="y" v-if="` + np + `">Y</p>`), obs: not(present("y")), data: data, skip: f.skip},
+			position{name: f.name + " / :class !", tpl: w(`<p data-m="y" :class="{k: ` + np + `}">Y</p>`), obs: not(hasClass("y", "k", nil, nil)), data: data, skip: f.skip},
 			position{name: f.name + " / v-show !", tpl: w(`<p data-m="y" v-show="` + np + `">Y</p>`), obs: not(shown("y")), data: data, skip: f.skip},
 		)
 	}
 	return out
 }
 
+// stackOnlyPosition: the position's operand is a path that only the variable stack can read.
+func stackOnlyPosition(name string) bool {
+	for _, f := range []string{"hyphenated name x-val", "dotted index l.0", "map in slice ms.1.x", "struct field by JSON tag h.val",
+		"pointer to struct hp.val", "struct in looped slice p.val", "struct in slice hs[0].val"} {
+		if strings.HasPrefix(name, f+" /") {
+			return true
+		}
+	}
+	return false
+}
+
 func allForms() []form {
 	out := append([]form(nil), forms...)
+	out = append(out, promotedForms()...)
 	out = append(out, funcNameForms()...)
 	return append(out, cmpForms()...)
 }
@@ -379,6 +438,17 @@ func excludedPositions(v vals.V, open map[string]bool) map[string]string {
 	}
 	if open[fShowChain] {
 		out[pShowChain] = fShowChain
+	}
+	if t, spec := v.Truthy(); open[fClassNot] && ((spec && !t) || (v.K == "string" && v.S == "false")) {
+		// negated :class entries whose operand the expression library cannot negate
+		for _, p := range positionNames() {
+			if p != pClassNot && !strings.HasSuffix(p, "/ :class !") {
+				continue
+			}
+			if v.K != "bool" || stackOnlyPosition(p) {
+				out[p] = fClassNot
+			}
+		}
 	}
 	if open[fClassSne] && v.K == "bool" {
 		for _, p := range positionNames() {
